@@ -130,6 +130,13 @@ func (vt *Model) decrc() {
 	}
 
 	vt.cursor = state.cursor
+	// The screen may have shrunk since the cursor was saved
+	if vt.cursor.row > row(vt.height()-1) {
+		vt.cursor.row = row(vt.height() - 1)
+	}
+	if vt.cursor.col > column(vt.width()-1) {
+		vt.cursor.col = column(vt.width() - 1)
+	}
 	vt.charsets = charsets{
 		selected: state.charsets.selected,
 		saved:    state.charsets.saved,
